@@ -291,6 +291,9 @@ def _path_roundtrip(vc):
     out = vc.drain(g.value)
     vc.ensure("valid-path-is-accepted(no-ValueError)", out.kind == "ret")
     # the scanner stops (StopIteration inside next()) only after the last component was delivered
+    if "genv" not in st.ghost:
+        # the loop invariant is keyed on the scanner's loop; without that loop the contract has nothing to say
+        raise sym.Unsupported("_path_components no longer has the scanning loop the invariant is attached to")
     vc.ensure("stops-only-after-the-last-component", st.ghost["genv"]["__m"] == M)
 
 
